@@ -150,7 +150,17 @@ def _tree(draw):
             links[p] = ("../" * (parent.count("/") + (2 if parent else 1) + draw(st.integers(0, 1))) + t, "climb")
         elif style == "climb":
             links[p] = ("../" * (parent.count("/") + 2 if parent else 1) + "outside.txt", style)
-    order = draw(st.permutations(sorted(list(files) + list(meta) + list(links))))
+    order = list(draw(st.permutations(sorted(list(files) + list(meta) + list(links)))))
+    if draw(st.integers(0, 3)) == 0 and "old-docs" not in dirs and not any(k.startswith(("a-stale", "b-readme", "old")) for k in list(files) + list(links)):
+        # names that are PREFIXES of one another: a link into a directory that does not exist ('old/...'), stored before a
+        # link into a directory whose name begins with that name ('old-docs/...'); likewise for a metadata look-up
+        dirs = list(dirs) + ["old-docs", "site", "site/gophermaps"]
+        files["old-docs/readme.txt"] = "read me\n"
+        files["site/gophermaps/x.txt"] = "x\n"
+        meta["site/gophermaps/.abstract"] = "about the gophermaps directory\n"
+        links["a-stale"] = ("old/gone.txt", "dangling")
+        links["b-readme"] = ("old-docs/readme.txt", "rel")
+        order = ["a-stale", "b-readme"] + order + ["old-docs/readme.txt", "site/gophermaps/x.txt", "site/gophermaps/.abstract"]
     # DOS time stamps that no calendar knows (written by careless tools; the ZIP format does not forbid them) and extremes
     dates = {}
     if (files or meta or links) and draw(st.integers(0, 2)) == 0:
